@@ -4,6 +4,7 @@ mod common;
 mod s_bigrat;
 mod s_biguint;
 mod s_date;
+mod s_preview;
 mod s_serde;
 mod s_text;
 
@@ -27,6 +28,7 @@ fn main() {
         "intfn" => s_text::intfn_line,
         "evalseq" => s_text::evalseq_line,
         "strlit" => s_text::strlit_line,
+        "preview" => s_preview::line,
         "serde" => s_serde::serde_line,
         "deser" => s_serde::deser_line,
         _ => {
